@@ -43,3 +43,6 @@ def check(ctx):
     # what "the local parent in effect" needs from the scope stack (see props/common.py)
     from .common import scope_bundle
     scope_bundle(ctx, ctx.facts("E"), "R9")
+    # what a call records reaches the collector when the call's guard is dropped -- on every path of the guard's Drop, also while the
+    # thread is unwinding (a panicking last poll_next, a poll_close made from a destructor)
+    scopes.rule_scope_pairing(ctx, ctx.facts("E"), "R10")
